@@ -47,6 +47,8 @@ class ExecutionContext:
     on_metric: MetricHook | None
     on_log: LogHook | None
     operation: str | None
+    admitted: bool = False
+    settled: bool = False
 
     @classmethod
     def create(
@@ -102,6 +104,7 @@ def check_breaker(ctx: ExecutionContext) -> None:
         return
 
     decision = ctx.breaker.allow()
+    ctx.admitted = decision.allowed
     ctx.emit_breaker_event(decision.event, decision.state)
 
     if not decision.allowed:
@@ -113,6 +116,7 @@ def record_success(ctx: ExecutionContext) -> None:
     if ctx.breaker is None:
         return
 
+    ctx.settled = True
     event = ctx.breaker.record_success()
     ctx.emit_breaker_event(event, ctx.breaker.state)
 
@@ -120,6 +124,7 @@ def record_success(ctx: ExecutionContext) -> None:
 def record_cancel(ctx: ExecutionContext) -> None:
     """Record cancellation with circuit breaker (no event emitted)."""
     if ctx.breaker is not None:
+        ctx.settled = True
         ctx.breaker.record_cancel()
 
 
@@ -128,8 +133,21 @@ def record_failure(ctx: ExecutionContext, klass: ErrorClass) -> None:
     if ctx.breaker is None:
         return
 
+    ctx.settled = True
     event = ctx.breaker.record_failure(klass)
     ctx.emit_breaker_event(event, ctx.breaker.state, klass)
+
+
+def ensure_settled(ctx: ExecutionContext) -> None:
+    """
+    Release the breaker if an admitted call is ending without a recorded result.
+
+    Called from a ``finally`` around every admitted call, so that whatever way the
+    call ends (GeneratorExit, a nested CircuitOpenError, a raising hook, ...) a
+    half-open probe slot is never left occupied.
+    """
+    if ctx.admitted and not ctx.settled:
+        record_cancel(ctx)
 
 
 def classify_for_breaker(exc: BaseException, retry: Any) -> ErrorClass:
